@@ -298,6 +298,7 @@ struct RunOut
   std::string exc;
   uint64_t feeds = 0;
   bool stoppedAfterClose = false;
+  size_t fedBytes = 0;
 };
 
 // ───────────────────────────── the server under test ─────────────────────────────
@@ -434,6 +435,7 @@ struct Env
       break;
     }
     out.stoppedAfterClose = fed < L;
+    out.fedBytes = fed;
     quiesce();
     {
       std::lock_guard<std::mutex> l(srv._sessionMutex);
@@ -532,20 +534,39 @@ std::vector<Finding> judge(const std::string &stream, const c15ref::Parse &ref, 
     if (!f)
       ue.push_back(i);
   }
+  bool lostReported = false;
   for (size_t i : ue)
   {
     const DMsg &e = exp[i];
+    // partner: the unused delivered message with the same method and path that is most similar
+    // (same header map > same query > same body); pipelined requests carry a distinct X-Seq marker
     size_t cand = out.got.size();
+    int best = -1;
     for (size_t j = 0; j < out.got.size(); ++j)
       if (!used[j] && out.got[j].method == e.method && out.got[j].path == e.path)
       {
-        cand = j;
-        break;
+        int score = (out.got[j].headers == e.headers ? 4 : 0) + (out.got[j].params == e.params ? 2 : 0) + (out.got[j].body == e.body ? 1 : 0);
+        if (score < 3)
+          continue; // neither the same header map nor the same query+body: not the same message
+        if (score > best)
+        {
+          best = score;
+          cand = j;
+        }
       }
     std::string where = "message #" + std::to_string(i) + " of " + std::to_string(exp.size()) + " (" + ref.msgs[i].framing + ")";
     if (cand == out.got.size())
     {
+      // only the first lost message of a run is reported: later ones are consequences (the connection
+      // was closed, or the stream position is already wrong)
+      if (lostReported)
+        continue;
+      lostReported = true;
       std::string sig = i == 0 ? "message-lost:first:" + ref.msgs[i].framing : "message-lost:after=" + ref.msgs[i - 1].framing;
+      // the server closed the connection before this message had been read completely: the loss is a
+      // consequence of whatever made it close (named by the preceding message), not of the cut position
+      if (out.stoppedAfterClose && ref.msgs[i].end > out.fedBytes)
+        sig = "message-lost:closed-before-read:" + sig.substr(13);
       std::string st;
       for (int s : out.statuses)
         st += std::to_string(s) + " ";
@@ -901,9 +922,12 @@ std::vector<std::string> headerLines(int hs, const Framing &f, size_t bodyLen)
   return l;
 }
 
-std::string buildRequest(const std::string &method, const std::string &target, int hs, const std::string &body, const Framing &f)
+std::string buildRequest(const std::string &method, const std::string &target, int hs, const std::string &body, const Framing &f,
+                         const std::string &firstHeader = "")
 {
   std::string s = method + " " + target + " HTTP/1.1\r\n";
+  if (!firstHeader.empty())
+    s += firstHeader + "\r\n";
   for (auto &l : headerLines(hs, f, body.size()))
     s += l + "\r\n";
   s += "\r\n";
@@ -1020,24 +1044,40 @@ Framing clen()
   return f;
 }
 
-// pipeline atoms (one request each)
-std::vector<std::string> pipelineAtoms()
+// pipeline atoms (one request each); `seq` = position in the pipeline, carried in a marker header so
+// that every request of a pipeline is distinguishable
+const size_t kAtoms = 12, kQuickAtoms = 6;
+std::string pipelineAtom(size_t i, int seq)
 {
-  std::vector<std::string> a;
-  a.push_back(buildRequest("GET", "/", 0, "", Framing{}));
-  a.push_back(buildRequest("POST", "/", 0, "hello", clen()));
-  a.push_back(buildRequest("POST", "/", 0, "hello", chunked({5})));
-  a.push_back(buildRequest("POST", "/", 0, "hello", chunked({2, 3}, 1, 0)));
-  a.push_back(buildRequest("POST", "/", 0, "hello", chunked({5}, 0, 1)));
-  a.push_back(buildRequest("POST", "/a/b?x=1&y=2", 3, kBodies[3], clen()));
+  std::string mk = std::string("X-Seq: ") + "pqr"[seq]; // letters outside the hostile substitution alphabet
+  switch (i)
+  {
+  case 0:
+    return buildRequest("GET", "/", 0, "", Framing{}, mk);
+  case 1:
+    return buildRequest("POST", "/", 0, "hello", clen(), mk);
+  case 2:
+    return buildRequest("POST", "/", 0, "hello", chunked({5}), mk);
+  case 3:
+    return buildRequest("POST", "/", 0, "hello", chunked({2, 3}, 1, 0), mk);
+  case 4:
+    return buildRequest("POST", "/", 0, "hello", chunked({5}, 0, 1), mk);
+  case 5:
+    return buildRequest("POST", "/a/b?x=1&y=2", 3, kBodies[3], clen(), mk);
   // ---- the first six are the quick-tier triple alphabet ----
-  a.push_back(buildRequest("POST", "/", 0, "", clen()));
-  a.push_back(buildRequest("POST", "/", 0, "", chunked({})));
-  a.push_back(buildRequest("POST", "/", 0, "", chunked({}, 0, 2)));
-  a.push_back(buildRequest("HEAD", "/", 0, "", Framing{}));
-  a.push_back(buildRequest("POST", "/zz/r%20x", 5, kBodies[3], chunked({1, 4}, 2, 0)));
-  a.push_back(buildRequest("GET", "/a/b?x=1&y=2", 4, "x", chunked({1}, 1, 2)));
-  return a;
+  case 6:
+    return buildRequest("POST", "/", 0, "", clen(), mk);
+  case 7:
+    return buildRequest("POST", "/", 0, "", chunked({}), mk);
+  case 8:
+    return buildRequest("POST", "/", 0, "", chunked({}, 0, 2), mk);
+  case 9:
+    return buildRequest("HEAD", "/", 0, "", Framing{}, mk);
+  case 10:
+    return buildRequest("POST", "/zz/r%20x", 5, kBodies[3], chunked({1, 4}, 2, 0), mk);
+  default:
+    return buildRequest("GET", "/a/b?x=1&y=2", 4, "x", chunked({1}, 1, 2), mk);
+  }
 }
 
 struct InvalidCase
@@ -1078,6 +1118,11 @@ std::vector<InvalidCase> invalidLengthFamily()
   v.push_back({"chunk-size-FFFFFFFFFFFFFFFE", chReq("FFFFFFFFFFFFFFFE")});
   v.push_back({"chunk-size-FFFFFFFFFFFFFFF7", chReq("FFFFFFFFFFFFFFF7")});
   v.push_back({"chunk-size-8000000000000000", chReq("8000000000000000")});
+  // position arithmetic that wraps onto bytes which then look like a last-chunk
+  v.push_back({"chunk-size-FFFFFFFFFFFFFFFF-wraps-onto-last-chunk",
+               "POST / HTTP/1.1\r\nHost: h\r\nTransfer-Encoding: chunked\r\n\r\nFFFFFFFFFFFFFFFF\r\nx0\r\n\r\n" + next});
+  v.push_back({"chunk-size-FFFFFFFFFFFFFFFE-wraps-onto-last-chunk",
+               "POST / HTTP/1.1\r\nHost: h\r\nTransfer-Encoding: chunked\r\n\r\nFFFFFFFFFFFFFFFE\r\n0\r\n\r\n" + next});
   v.push_back({"chunk-size-7FFFFFFFFFFFFFFF", chReq("7FFFFFFFFFFFFFFF")});
   v.push_back({"chunk-size-17-hex-digits", chReq("10000000000000005")});
   v.push_back({"chunk-size-17-F", chReq("FFFFFFFFFFFFFFFFF")});
@@ -1225,7 +1270,7 @@ struct Explorer
           continue;
         }
         const std::vector<Finding> &un = unsplitFindings(stream, ref, isolated);
-        if (hasFinding(un, f))
+        if (hasFinding(un, f) || f.sig.compare(0, 32, "message-lost:closed-before-read:") == 0)
         {
           r.violation(f.clause, f.sig, kase, f.detail);
           continue;
@@ -1478,19 +1523,19 @@ struct Explorer
           }
         }
     // ---- C: pipelines ----
-    std::vector<std::string> atoms = pipelineAtoms();
     std::vector<std::string> pipes2;
-    for (size_t i = 0; i < atoms.size() && !stop; ++i)
-      for (size_t j = 0; j < atoms.size(); ++j)
+    for (size_t i = 0; i < kAtoms && !stop; ++i)
+      for (size_t j = 0; j < kAtoms; ++j)
       {
-        pipes2.push_back(atoms[i] + atoms[j]);
-        stream("C2", atoms[i] + atoms[j], thorough ? Pairs : Basic);
+        std::string w = pipelineAtom(i, 0) + pipelineAtom(j, 1);
+        pipes2.push_back(w);
+        stream("C2", w, thorough ? Pairs : Basic);
       }
-    size_t n3 = thorough ? atoms.size() : 6;
+    size_t n3 = thorough ? kAtoms : kQuickAtoms;
     for (size_t i = 0; i < n3 && !stop; ++i)
       for (size_t j = 0; j < n3; ++j)
         for (size_t k = 0; k < n3; ++k)
-          stream("C3", atoms[i] + atoms[j] + atoms[k], Basic);
+          stream("C3", pipelineAtom(i, 0) + pipelineAtom(j, 1) + pipelineAtom(k, 2), Basic);
     // ---- E: hostile single-byte substitutions ----
     if (thorough)
     {
@@ -1512,9 +1557,9 @@ struct Explorer
         hostile(buildRequest("POST", kTargets[1], hs, "hello", chunked({2, 3}, 1, 1)), true);
         hostile(buildRequest("POST", kTargets[1], hs, "hello", chunked({5})), true);
       }
-      for (size_t i = 0; i < 6; ++i)
-        for (size_t j = 0; j < 6; ++j)
-          hostile(atoms[i] + atoms[j], false);
+      for (size_t i = 0; i < kQuickAtoms; ++i)
+        for (size_t j = 0; j < kQuickAtoms; ++j)
+          hostile(pipelineAtom(i, 0) + pipelineAtom(j, 1), false);
     }
     if (sh.w == 0 && !stop)
       r.counters["max_cases_enumerated"] = idx;
